@@ -98,7 +98,18 @@ check('C18', 'exploration',
       'TLA+ case table evaluated by TLC on paired direct/wire observations',
       'DESIGN.md 4/C18')
 
-PENDING = ['C01', 'C02', 'C03', 'C04', 'C05', 'C06', 'C07', 'C08', 'C16', 'C17']
+check('C08', 'exploration',
+      'SpyneLexical.tla builds by construction the read table (literal -> denoted value: every one of the 1682 UTC-offset '
+      'spellings x 8 fraction classes for xs:dateTime, the boundaries of all nine integer types as digit strings with their '
+      'lexical variants, decimal / double / boolean / date / time / duration / uuid / base64 / hex / text classes, '
+      'as_timezone) and the write table (value -> the literals that denote it), checks the tables\' own laws with TLC and '
+      'exports ~17 000 rows. Every row goes through from_unicode / to_unicode of ProtocolBase, XmlDocument, Soap11 and HttpRpc; '
+      'TLC evaluates ReadOk / WriteDenotes / WriteInLexicalSpace on each observation and lxml\'s XML Schema processor judges '
+      'every printed literal against the advertised xs: type. An exhaustive case table, not a state space.',
+      'TLA+ literal/denotation tables built by TLC + evaluation of read/write observations',
+      'DESIGN.md 4/C08')
+
+PENDING = ['C01', 'C02', 'C03', 'C04', 'C05', 'C06', 'C07', 'C16', 'C17']
 
 def main():
     import importlib
